@@ -25,6 +25,8 @@ type dfile struct {
 	data    []byte
 
 	id      age.Identity
+	kclass  string // class used in violation keys (class when empty)
+	marmor  bool   // malformed armor text: own read sizes, no read-ahead bound (it assumes canonical line density)
 	dearmor bool   // armored files whose armor text is of interest on its own
 	hdr16   int    // header + nonce length of the undamaged binary file
 	lead    int    // extra armor text that is not payload (leading white space, CRs)
@@ -281,6 +283,33 @@ func (m *monitor) buildFiles() []*dfile {
 			mk(true, d.class, d.how, d.data)
 		}
 	}
+	// malformed armor over two small files (one shorter, one longer than the
+	// armor reader's 4096-byte bufio)
+	nm := 0
+	for i, n := range []int{1080, 5000} {
+		p := keys.P("X1")
+		ptLabel := fmt.Sprintf("c12-mpt-%d-%d", r.Seed, n)
+		bin, err := ax.Encrypt(mon.DetBytes(ptLabel, n), false, p.Recipient)
+		if err != nil {
+			r.Violate(fmt.Sprintf("encrypt-refused:len=%d", n), err.Error(), nil)
+			continue
+		}
+		hdr := refage.HeaderEnd(bin)
+		rng := r.RNG(fmt.Sprintf("c12-marmor-%d", n))
+		for _, ma := range malformedArmor(bin, rng, r.Thorough() || i == 0) {
+			h := sha256.Sum256(append([]byte{1}, ma.text...))
+			if seen[h] {
+				continue
+			}
+			seen[h] = true
+			files = append(files, &dfile{base: fmt.Sprintf("len=%d", n), length: n, armored: true, marmor: true, dearmor: true,
+				class: "marmor-" + ma.kind + "-" + ma.shape, kclass: "malformed-armor/" + ma.kind,
+				how:  fmt.Sprintf("ax.Encrypt(mon.DetBytes(%q, %d)) to X1 under tape c12-files-%d; base64 body re-laid-out: %s (%s)", ptLabel, n, r.Seed, ma.shape, ma.kind),
+				data: ma.text, id: p.Identity, hdr16: hdr + 16})
+			nm++
+		}
+	}
+	r.Set("malformed_armor_texts", nm)
 	r.Set("decrypt_side_files", len(files))
 	return files
 }
